@@ -80,6 +80,7 @@ func init() {
 					add(pIn{K: "range", Op: op, V: v})
 				}
 			}
+			rangeSplitCases(add) // kept intervals split by later ones: every accepted range stays matched by what it denotes
 			// end to end: accepted => matchable.  One document per value; queries with candidate values.
 			cands := []int64{0, 1, 2, 3, 5, 7, 8, 9, 10, -3, 4, 127, 255, 1000, 2000, 64, 100, -15, -17, 11, 1500, 250, 15}
 			mkQueries := func(f int) []eQuery {
